@@ -117,6 +117,7 @@ void density_sketch<T, K, A>::merge(FwdSketch&& other) {
 template<typename T, typename K, typename A>
 T density_sketch<T, K, A>::get_estimate(const std::vector<T>& point) const {
   if (is_empty()) throw std::runtime_error("operation is undefined for an empty sketch");
+  if (point.size() != dim_) throw std::invalid_argument("dimension mismatch");
   T density = 0;
   for (unsigned height = 0; height < levels_.size(); ++height) {
     for (const auto& p: levels_[height]) {
